@@ -221,7 +221,6 @@ def usingVerifiers (v : Variant) (P : Policy) (vs : List VerifierN) (g : Option 
       match ex.v.verify g 1 auth with
       | .error _ => .error .other
       | .ok exUsed =>
-        let exUsed := withApprovers defs apps ex.v.principals approvers exUsed
         if rest.isEmpty then .ok { usedName := ex.name, accepted := exUsed, rslNeeded := false }
         else match go rest with
           | .error e => .error e
